@@ -96,9 +96,14 @@ var _ = sort.Strings
 
 type specDoc map[string]any
 
+// configuration values the spec must carry literally (C20); the base URL deliberately ends with a slash
+const fxBaseURL = "https://api.example.com/v1/"
+
 func loadSpec(t *testing.T, version string) specDoc {
 	_, spec, err := genInto(t, t.TempDir(), func(cfg map[string]any) {
-		cfg["openapiGeneratorConfig"].(map[string]any)["openapi"] = version
+		oc := cfg["openapiGeneratorConfig"].(map[string]any)
+		oc["openapi"] = version
+		oc["baseUrl"] = fxBaseURL
 	})
 	if err != nil {
 		t.Fatalf("generation failed for %s: %v", version, err)
@@ -243,6 +248,33 @@ func checkOperations(doc specDoc, version string, report func(class, msg string)
 	}
 }
 
+// C20: info, servers and securitySchemes are those of the configuration, literally
+func checkConfigHonoured(doc specDoc, version string, report func(class, msg string)) {
+	if got := fmt.Sprint(dig(doc, "openapi")); got != version {
+		report("C20-openapi-version", fmt.Sprintf("%s: document declares version %q", version, got))
+	}
+	var urls []string
+	if l, ok := map[string]any(doc)["servers"].([]any); ok {
+		for _, s := range l {
+			urls = append(urls, fmt.Sprint(dig(s, "url")))
+		}
+	}
+	if fmt.Sprint(urls) != fmt.Sprint([]string{fxBaseURL}) {
+		report("C20-servers", fmt.Sprintf("%s: servers %v, want exactly the configured base URL [%s]", version, urls, fxBaseURL))
+	}
+	for k, want := range map[string]string{"title": "Fixture API", "description": "Fixture", "termsOfService": "http://example.com/terms/", "version": "1.0.0"} {
+		if got := fmt.Sprint(dig(doc, "info", k)); got != want {
+			report("C20-info", fmt.Sprintf("%s: info.%s = %q, want %q", version, k, got, want))
+		}
+	}
+	for name, field := range map[string]string{"schemeA": "x-a", "schemeB": "x-b", "schemeD": "x-d"} {
+		sc := dig(doc, "components", "securitySchemes", name)
+		if fmt.Sprint(dig(sc, "type")) != "apiKey" || fmt.Sprint(dig(sc, "in")) != "header" || fmt.Sprint(dig(sc, "name")) != field {
+			report("C20-security-scheme", fmt.Sprintf("%s: securitySchemes.%s = %v, want apiKey in header named %s", version, name, sc, field))
+		}
+	}
+}
+
 func checkComponents(doc specDoc, version string, report func(class, msg string)) {
 	schemas, _ := dig(doc, "components", "schemas").(map[string]any)
 	var names []string
@@ -253,7 +285,7 @@ func checkComponents(doc specDoc, version string, report func(class, msg string)
 	if want := []string{"AlphaBody", "BetaBody", "Rank", "Rfc7807Error"}; fmt.Sprint(names) != fmt.Sprint(want) {
 		report("C07-component-set", fmt.Sprintf("%s: components %v, want %v", version, names, want))
 	}
-	if got, want := strs(dig(schemas["Rank"], "enum")), []string{"high", "low", "mid"}; fmt.Sprint(got) != fmt.Sprint(want) {
+	if got, want := strs(dig(schemas["Rank"], "enum")), []string{"high", "low", "mid", "top"}; fmt.Sprint(got) != fmt.Sprint(want) {
 		report("C07-enum-values-depend-on-usage", fmt.Sprintf("%s: component Rank.enum = %v, want the declared constants %v (a usage-site validate tag must not rewrite the shared component)", version, got, want))
 	}
 	props := func(name string) []string {
@@ -299,6 +331,7 @@ func TestVerifSpecAgainstAnnotations(t *testing.T) {
 		docs[v] = loadSpec(t, v)
 		checkOperations(docs[v], v, report)
 		checkComponents(docs[v], v, report)
+		checkConfigHonoured(docs[v], v, report)
 	}
 	// C11: the two documents describe the same API, aspect by aspect
 	aspects := func(doc specDoc) map[string]string {
